@@ -57,13 +57,19 @@ class Persistence:
         split_fname = os.path.splitext(fname)
         tmp_fname = f"{split_fname[0]}.tmp{split_fname[1]}"
         _LOGGER.debug("Saving sensors to persistence file %s", fname)
-        self._perform_file_action(tmp_fname, "save")
-        if exists:
-            os.rename(fname, self.persistence_bak)
-        os.rename(tmp_fname, fname)
-        if exists:
-            os.remove(self.persistence_bak)
+        # Clear the flag before the sensors are serialized. A change that arrives
+        # while the file is written sets the flag again and is saved next time.
         self.need_save = False
+        try:
+            self._perform_file_action(tmp_fname, "save")
+            if exists:
+                os.rename(fname, self.persistence_bak)
+            os.rename(tmp_fname, fname)
+            if exists:
+                os.remove(self.persistence_bak)
+        except Exception:
+            self.need_save = True
+            raise
 
     def _load_sensors(self, path=None):
         """Load sensors from file."""
